@@ -189,6 +189,31 @@ pub fn listing_from_json(report: &serde_json::Value) -> Vec<ExpListed> {
     out
 }
 
+/// Error texts may embed heap addresses (Lua prints `table: 0x7f…`); they are not part of any
+/// oracle and would break byte-identical replay of the event log.
+pub fn redact_pointers(s: &str) -> String {
+    let b = s.as_bytes();
+    let mut out = String::with_capacity(s.len());
+    let mut i = 0;
+    while i < b.len() {
+        if b[i] == b'0' && i + 1 < b.len() && b[i + 1] == b'x' {
+            let mut j = i + 2;
+            while j < b.len() && b[j].is_ascii_hexdigit() {
+                j += 1;
+            }
+            if j - (i + 2) >= 6 {
+                out.push_str("0xPTR");
+                i = j;
+                continue;
+            }
+        }
+        let ch_len = s[i..].chars().next().map(|c| c.len_utf8()).unwrap_or(1);
+        out.push_str(&s[i..i + ch_len]);
+        i += ch_len;
+    }
+    out
+}
+
 pub const SIM_HOST: &str = "http://sim.invalid";
 
 /// Sets the BLOCKWATCH_* environment of this process from the world (level A) or returns it for
@@ -425,7 +450,7 @@ pub fn execute(world: &World, plan: &Plan, judgement: &Judgement, scratch: &Path
                 // let the rest finish so the logs are cut at a deterministic point.
                 incomplete = !gate.wait_all(n_units, std::time::Duration::from_millis(400));
                 match result {
-                    Err(e) => Obs::Failed(format!("{e:#}")),
+                    Err(e) => Obs::Failed(redact_pointers(&format!("{e:#}"))),
                     Ok(map) => {
                         let mut diags = Vec::new();
                         for (path, vs) in &map {
